@@ -29,7 +29,7 @@ def _table() -> Dict[int, str]:
               "amax", "amin", "max", "min", "median", "cross", "where", "unique", "sort", "concatenate", "abs",
               "argsort", "column_stack", "hstack", "append", "delete", "diff", "argwhere", "arange", "percentile",
               "searchsorted", "zeros_like", "empty_like", "polyfit", "corrcoef", "full", "full_like", "array_equal", "ptp",
-              "multiply", "add", "subtract", "true_divide", "exp", "clip", "float64", "nansum", "cumsum", "prod"):
+              "multiply", "add", "subtract", "true_divide", "exp", "clip", "float64", "nansum", "cumsum", "prod", "take", "flatnonzero"):
         if hasattr(np, n):
             t.setdefault(id(getattr(np, n)), "np." + n)
     t[id(np.linalg.norm)] = "np.linalg.norm"
@@ -431,6 +431,8 @@ def _method_call(fr: Frame, e, f: ast.Attribute, args, kwargs, env, guard, stmt)
         fr.events.append(Event(guard, "pop", base_name, tuple(args), e, fr.havoc_depth))
         return ev.fresh_sym(base_name + ".pop")
     base = fr.expr(f.value, env)
+    if m in ("all", "any") and not args and isinstance(base, G):
+        return base            # (mask).all() / .any(): as np.all(mask) / np.any(mask)
     if m in ("astype", "copy", "flatten", "ravel", "tolist", "squeeze", "view"):
         return base
     if m in ("info", "debug", "warning", "error"):
@@ -660,6 +662,17 @@ def _known(fr: Frame, name: str, e, args, kwargs, env, guard, stmt):
             return mk_pw([(c, a(1)), (g_not(c), a(2))])
     if name == "math.atan":
         return lift(lambda v: anf.opaque("atan", R(v)), a(0))
+    if name == "np.take" and len(args) == 2 and isinstance(a(0), Vec) and a(0).kind == "point" and isinstance(kwargs.get("axis"), Rat) and kwargs["axis"].is_zero() \
+            and isinstance(a(1), Rat) and a(1).is_array():
+        # rows of a points array selected by position: every column taken at the same positions
+        return Vec([anf.opaque("take", c, a(1), array=True) for c in a(0).items], "point")
+    if name == "np.take" and len(args) == 2 and not kwargs:
+        # np.take(a, idx) is a[idx] for a flat array
+        base, idx = a(0), a(1)
+        if isinstance(base, Rat) and base.is_array() and isinstance(idx, (Rat, Vec)):
+            return anf.opaque("take", base, R(idx), array=True) if (isinstance(idx, Vec) or R(idx).is_array()) else anf.opaque("at", base, R(idx), array=False)
+    if name == "np.flatnonzero" and len(args) == 1:
+        return _opaque_call(fr, "np.argwhere", args, kwargs)          # the positions where the argument is true, as a flat vector (np.argwhere(..).flatten())
     return _opaque_call(fr, name, args, kwargs)
 
 
